@@ -20,6 +20,7 @@ EXPLANATION = (
     "with what each producer of hash updates can hand in and with the file table's CHECK constraints. Decides the "
     "per-site structural clauses, not graph-wide invariants after arbitrary operation sequences. "
     'Also: Step.mark_completed reaches outputs through products(File) in both branches (a step that completes while detached still gets its outputs BUILT).'
+    ' R-C09-8 every statement that gives a stored node a new creator is dominated by the creator-chain check (or cannot close a cycle); R-C09-9 the primitive setters perform the write they are named after; R-C09-4 the batched cycle check covers exactly the inserted edges.'
 )
 ASSUMPTIONS = [
     "SQLite enforces CHECK constraints and RAISE(ABORT) triggers as documented",
